@@ -108,6 +108,22 @@ def gen_histories(rng, kind, n_exh2, n_rand, maxlen, **kw):
     return hs
 
 
+def small_scope_triples(rng, n=None, meta=False):
+    """Every 3-call history over a 13-call alphabet (2 pids, 2 contents, with and without pid, tag to a stored and to a
+    never-stored cid, delete, delete_if_invalid with a matching and a mismatching expectation): no sampling when n is None."""
+    A = [{"op": "so", "p": 1, "b": 7, "n": 1}, {"op": "so", "p": 1, "b": 8, "n": 1}, {"op": "so", "p": 2, "b": 7, "n": 1},
+         {"op": "so", "p": None, "b": 7, "n": 1}, {"op": "so", "p": None, "b": 8, "n": 1},
+         {"op": "tag", "p": 1, "c": 7}, {"op": "tag", "p": 2, "c": 7}, {"op": "tag", "p": 1, "c": 8}, {"op": "tag", "p": 2, "c": 100},
+         {"op": "del", "p": 1}, {"op": "del", "p": 2},
+         {"op": "dii", "c": 7, "sz": "n", "pre": True, "ok": False}, {"op": "dii", "c": 7, "sz": "o", "pre": True, "ok": True}]
+    if meta:
+        A += [{"op": "sm", "p": 1, "f": 0, "v": 1, "n": 1}, {"op": "dm", "p": 1, "f": None}]
+    hs = [[dict(a), dict(b), dict(c)] for a in A for b in A for c in A]
+    if n is not None and n < len(hs):
+        hs = rng.sample(hs, n)
+    return hs
+
+
 # ------------------------------------------------------------------ C05
 
 def c05(run):
@@ -127,6 +143,8 @@ def c05(run):
                 theorems=["C05_sem_inv", "C05_delete_total"], kernel_sample=8 if quick else 40)
     seq_project(run, "P-seq[C05]/related-pids", hs[half:], u=adversarial_universe(), step_oracles=ors,
                 theorems=["C05_sem_inv", "C05_delete_total"])
+    seq_project(run, "P-seq[C05]/small-scope", small_scope_triples(rng), step_oracles=ors,
+                theorems=["C05_sem_inv", "C05_delete_total"])
 
 
 # ------------------------------------------------------------------ C03 / C04 / C06 / C11
@@ -142,6 +160,8 @@ def c03(run):
     seq_project(run, "P-seq[C03]", hs[:half], step_oracles=(oracles.rebind_rejected,),
                 theorems=["C03_rebind_rejected", "C03_binding_changes_only_by_delete"], kernel_sample=5 if quick else 30)
     seq_project(run, "P-seq[C03]/related-pids", hs[half:], u=adversarial_universe(), step_oracles=(oracles.rebind_rejected,),
+                theorems=["C03_rebind_rejected", "C03_binding_changes_only_by_delete"])
+    seq_project(run, "P-seq[C03]/small-scope", small_scope_triples(rng, 400 if quick else None), step_oracles=(oracles.rebind_rejected,),
                 theorems=["C03_rebind_rejected", "C03_binding_changes_only_by_delete"])
 
 
@@ -167,6 +187,8 @@ def c04(run):
     seq_project(run, "P-seq[C04]", hs[:half], step_oracles=(oracles.referenced_stable, oracles.last_delete_and_guard),
                 theorems=th, kernel_sample=5 if quick else 30, retrieve_bound=True)
     seq_project(run, "P-seq[C04]/related-pids", hs[half:], u=adversarial_universe(),
+                step_oracles=(oracles.referenced_stable, oracles.last_delete_and_guard), theorems=th, retrieve_bound=True)
+    seq_project(run, "P-seq[C04]/small-scope", small_scope_triples(rng, 400 if quick else None, meta=True),
                 step_oracles=(oracles.referenced_stable, oracles.last_delete_and_guard), theorems=th, retrieve_bound=True)
 
 
